@@ -186,7 +186,7 @@ func (r *cmdRunner) run(shape cmdShape, text string, limit time.Duration) (strin
 	}
 	cmd := exec.Command(r.zygoBin, argv...)
 	cmd.Dir = r.can.Cwd
-	cmd.Env = append(os.Environ(), r.can.EnvName+"="+r.can.TokEnv)
+	cmd.Env = append(os.Environ(), r.can.EnvName+"="+r.can.TokEnv, "TMPDIR="+r.can.Tmp, "HOME="+r.can.Dir)
 	cmd.Stdin = strings.NewReader(r.stdin)
 	outPath := filepath.Join(r.dir, "out.txt")
 	of, _ := os.Create(outPath)
